@@ -30,6 +30,12 @@ inductive Val where
   | ref (i : Nat)
   deriving DecidableEq
 
+/-- `base` if it is not `None`, else the default (`if base == None: base = self.base`) -/
+def Val.orDefault (arg dflt : Val) : Val :=
+  match arg with
+  | .none => dflt
+  | b => b
+
 /-- the conversion methods -/
 inductive Meth where
   | ecef | enu | geo | proj
@@ -173,7 +179,7 @@ def World.trackToECEF (w : World Î±) (ti : Nat) (arg : Val) : Except Err (World 
     let objs â† convAll T w.heap .ecef [] t.pts
     .ok (w.rebind ti objs none t.base)
   | .enu =>
-    match (match arg with | .none => t.base | b => b) with
+    match arg.orDefault t.base with
     | .none => .error .exit
     | base => do
       let objs â† convAll T w.heap .ecef [base] t.pts
@@ -199,9 +205,7 @@ def World.trackToENU (w : World Î±) (ti : Nat) (arg : Val) : Except Err (World Î
       | _ => .error .attr        -- `base.toGeoCoords()` on an int (unreachable: the loop failed first)
   | _ =>
     -- Geo or ECEF: without argument the base is the position object of the first observation
-    let base : Val := match arg with
-      | .none => (match t.pts with | p :: _ => .ref p | [] => .none)
-      | b => b
+    let base : Val := arg.orDefault (match t.pts with | p :: _ => .ref p | [] => .none)
     do
       let objs â† convAll T w.heap .enu [base] t.pts
       match base with
@@ -221,7 +225,7 @@ def World.trackToGeo (w : World Î±) (ti : Nat) (arg : Val) : Except Err (World Î
     let objs â† convAll T w.heap .geo [] t.pts
     .ok (w.rebind ti objs none t.base)
   | .enu =>
-    match (match arg with | .none => t.base | b => b) with
+    match arg.orDefault t.base with
     | .none => .error .exit
     | base => do
       let objs â† convAll T w.heap .geo [base] t.pts
